@@ -153,15 +153,24 @@ func (tps *TPS) KeyGen(ctx context.Context) ([]byte, error) {
 	// We then distribute the polynomial evaluations (shares) to all parties.
 	// Each party 'i' gets P(i).
 	tps.shareDistribution(ctx, xShares, yShares)
+	if tps.contextTimedOut(ctx) {
+		return nil, fmt.Errorf("timed out before receiving the shares of all parties")
+	}
 
 	// Having received all shares, we combine all shares received from all parties by adding them.
 	pk := tps.combineShares()
 	pkBytes := pk.Bytes()
 
 	tps.commitPhase(ctx, pkBytes)
+	if tps.contextTimedOut(ctx) {
+		return nil, fmt.Errorf("timed out before receiving the commitments of all parties")
+	}
 
 	// Now we de-commit, and wait for everyone else to de-commit thus revealing their public key.
 	tps.revealPhase(ctx, pkBytes)
+	if tps.contextTimedOut(ctx) {
+		return nil, fmt.Errorf("timed out before receiving the public keys of all parties")
+	}
 	// Next, we ensure the commitments we received match the de-commitments
 	if err := tps.validateCommitments(); err != nil {
 		return nil, err
